@@ -15,6 +15,7 @@ PKGS = ["acme.lib.v1", "foo.bar.baz.v2", "acme.lib.v1beta1", "acme.lib.v1", "big
 SVC_STEMS = ["lib", "service", "library_service"]
 IMP_STEMS = ["shared", "resources", "common"]
 UNIMP_STEMS = ["extra", "operation", "metadata_types", "results"]
+SUBPKG_DEEPER = True      # two-level sub-packages (`<pkg>.sub.deeper`) in the sub-package layout
 MSG_POOL = ["Book", "MoveMeta", "OperationMetadata", "Empty", "Operation", "Status", "Result", "Shelf", "Progress",
             "Crate", "Report", "Struct", "Metadata", "Response"]
 # dependency-package types: proto full name -> defining file
@@ -35,9 +36,86 @@ def ask(ctx, ops):
             time.sleep(2)
 
 
+def fpkg(spec, role):
+    """package of the file with this role (sub-package layouts give files their own package)"""
+    return spec["files"][role].get("pkg") or spec["pkg"]
+
+
+def spkg(spec):
+    """the package of the service's file = the METHOD's package"""
+    return fpkg(spec, "svc")
+
+
+def fpath(spec, role):
+    return f"{fpkg(spec, role).replace('.', '/')}/{spec['files'][role]['stem']}.proto"
+
+
 # ------------------------------------------------------------------ generator (the property's quantifier)
 
-def gen_spec(r: apigen.Rng, idx: int, nlro=None):
+def gen_spec(r: apigen.Rng, idx: int, nlro=None, layout=None):
+    if layout is None:
+        layout = "subpkg" if r.maybe(0.3) else "flat"
+    if layout == "subpkg":
+        return gen_spec_subpkg(r, idx, nlro)
+    return gen_spec_flat(r, idx, nlro)
+
+
+def gen_spec_subpkg(r: apigen.Rng, idx: int, nlro=None):
+    """the service's file lives in the SUB-PACKAGE `<pkg>.sub`; a file of the ancestor package `<pkg>` and a file of
+    `<pkg>.other` | `<pkg>.sub.deeper` | `<pkg>` define messages with the SAME short names as the service's file.
+    Relative names must denote the messages of the METHOD's package (`<pkg>.sub.X`), fully-qualified names the
+    package they spell."""
+    pkg = r.pick(PKGS)
+    sub = f"{pkg}.sub"
+    names = list(MSG_POOL)
+    r.shuffle(names)
+    take = lambda k: [names.pop() for _ in range(k)]
+    mine = take(r.randint(2, 3))
+    third_pkg = r.pick([f"{pkg}.other", f"{pkg}.other", SUBPKG_DEEPER and f"{sub}.deeper" or f"{pkg}.other", pkg])
+    anc = {"stem": r.pick(IMP_STEMS), "pkg": pkg, "msgs": list(mine) if r.maybe(0.7) else mine[:1] + take(1), "nested": [["Outer", "Inner"]]}
+    third = {"stem": r.pick(UNIMP_STEMS), "pkg": third_pkg, "msgs": take(r.randint(1, 2)) if third_pkg == pkg else list(mine), "nested": [["Box", "Lid"]]}
+    if r.maybe(0.5):          # which of the two is imported by the service's file
+        imp, unimp = anc, third
+    else:
+        imp, unimp = third, anc
+    files = {"svc": {"stem": r.pick(SVC_STEMS), "pkg": sub, "msgs": mine, "nested": [["Outer", "Inner"]]}, "imp": imp, "unimp": unimp}
+    svc_deps = [f for f in sorted(set(WKT.values())) if r.maybe(0.5)]
+
+    def ref():
+        kind = r.pick(["rel-clash"] * 5 + ["abs-same", "abs-ancestor", "abs-ancestor", "abs-third", "nested-same", "nested-ancestor", "empty", "dep"])
+        if kind == "rel-clash":
+            n = r.pick(mine)
+            shadowed = n in anc["msgs"] or n in third["msgs"]
+            return {"case": "rel-subpkg-" + ("shadowing" if shadowed else "plain"), "text": n, "target": f"{sub}.{n}"}
+        if kind == "abs-same":
+            full = f"{sub}.{r.pick(mine)}"
+        elif kind == "abs-ancestor":
+            full = f"{pkg}.{r.pick(anc['msgs'])}"
+        elif kind == "abs-third":
+            full = f"{third_pkg}.{r.pick(third['msgs'])}"
+        elif kind == "nested-same":
+            full = f"{sub}.Outer.Inner"
+        elif kind == "nested-ancestor":
+            full = f"{pkg}.Outer.Inner"
+        else:
+            full = "google.protobuf.Empty" if kind == "empty" else r.pick([k for k in WKT if k != "google.protobuf.Empty"])
+            imported = WKT[full] in svc_deps
+            return {"case": f"{kind}-{'imported' if imported else 'unimported'}", "text": full, "target": full}
+        return {"case": kind + "-subpkg", "text": full, "target": full}
+
+    methods = []
+    for k in range(nlro if nlro is not None else r.randint(3, 5)):
+        methods.append({"name": f"{r.pick(['Start', 'Import', 'Export', 'Run'])}{r.pick(['Job', 'Index'])}{k}",
+                        "kind": "lro", "response": ref(), "metadata": ref()})
+    methods.append({"name": "StartRaw", "kind": "raw"})
+    methods.append({"name": "GetThing", "kind": "plain"})
+    r.shuffle(methods)
+    order = ["imp", "svc"]
+    order.insert(r.randint(0, 2), "unimp")
+    return {"pkg": pkg, "layout": "subpkg", "files": files, "svc_deps": svc_deps, "order": order, "methods": methods, "service_yaml": None}
+
+
+def gen_spec_flat(r: apigen.Rng, idx: int, nlro=None):
     """one API: a service file, a file it imports, a file NOBODY imports (all three generated, same
     package), LRO methods whose response/metadata names are relative | fully-qualified and point to
     same-file | other-file imported | other-file not imported | nested | Empty | other dependency types."""
@@ -93,9 +171,8 @@ def gen_spec(r: apigen.Rng, idx: int, nlro=None):
 
 def build_files(spec):
     """ApiSpec -> descriptors (apigen stands in for protoc)"""
-    pkg = spec["pkg"]
-    pdir = pkg.replace(".", "/")
-    path = lambda role: f"{pdir}/{spec['files'][role]['stem']}.proto"
+    pkg = spkg(spec)
+    path = lambda role: fpath(spec, role)
     other_deps = [f for f in sorted(set(WKT.values())) if f not in spec["svc_deps"]]
     out = {}
     for role in ROLES:
@@ -103,7 +180,7 @@ def build_files(spec):
         deps = {"svc": MIN_DEPS + list(spec["svc_deps"]) + [path("imp")], "imp": [], "unimp": other_deps}[role]
         if role == "svc" and any(m["kind"] == "void" for m in spec["methods"]) and "google/protobuf/empty.proto" not in deps:
             deps = deps + ["google/protobuf/empty.proto"]
-        f = apigen.File(path(role), pkg, deps=deps)
+        f = apigen.File(path(role), fpkg(spec, role), deps=deps)
         for n in fs["msgs"]:
             m = f.msg(n); m.field("name"); m.field("n", "int32")
         for outer, inner in fs["nested"]:
@@ -257,9 +334,9 @@ def classify_output(co, m):
 
 
 def gen_selectors(r, spec, n):
-    pkg = spec["pkg"]
-    locals_ = [f"{pkg}.{x}" for role in ROLES for x in spec["files"][role]["msgs"]]
-    nested = [f"{pkg}." + ".".join(x) for role in ROLES for x in spec["files"][role]["nested"]]
+    pkg = spkg(spec)
+    locals_ = [f"{fpkg(spec, role)}.{x}" for role in ROLES for x in spec["files"][role]["msgs"]]
+    nested = [f"{fpkg(spec, role)}." + ".".join(x) for role in ROLES for x in spec["files"][role]["nested"]]
     out = []
     for _ in range(n):
         full = r.pick(locals_ + nested + list(WKT))
@@ -283,13 +360,17 @@ def t2_direct(ctx, r, spec, api, svc, mfiles, svc_idx):
     from gapic.schema import api as api_mod
     from google.protobuf import descriptor_pb2
     from google.longrunning import operations_pb2
-    stub = types.SimpleNamespace(api_messages=collections.ChainMap({}, *[p.all_messages for p in api.all_protos.values()]))
+    # a stand-in for `self` that IS a _ProtoBuilder (so helper methods a refactoring adds still resolve) but whose
+    # `api_messages` is the second-pass mapping
+    msgs = collections.ChainMap({}, *[p.all_messages for p in api.all_protos.values()])
+    stub_cls = type("_ProbeBuilder", (api_mod._ProtoBuilder,), {"api_messages": property(lambda self: msgs)})
+    stub = object.__new__(stub_cls)
     sels = gen_selectors(r, spec, ctx.n(24, 60))
     cases, ops = [], []
     for a, b in zip(sels[::2], sels[1::2]):
-        out = r.pick([OP_OUT] * 8 + ["." + spec["pkg"] + ".ThingRequest", OP, ".x" + OP, OP_OUT + "s", OP_OUT + ".Inner", ".x" + OP_OUT])
+        out = r.pick([OP_OUT] * 8 + ["." + spkg(spec) + ".ThingRequest", OP, ".x" + OP, OP_OUT + "s", OP_OUT + ".Inner", ".x" + OP_OUT])
         annotated = r.maybe(0.9)
-        mp = descriptor_pb2.MethodDescriptorProto(name="Probe", input_type="." + spec["pkg"] + ".ThingRequest", output_type=out)
+        mp = descriptor_pb2.MethodDescriptorProto(name="Probe", input_type="." + spkg(spec) + ".ThingRequest", output_type=out)
         if annotated:
             oi = mp.options.Extensions[operations_pb2.operation_info]
             oi.response_type, oi.metadata_type = a, b
@@ -303,7 +384,7 @@ def t2_direct(ctx, r, spec, api, svc, mfiles, svc_idx):
         cases.append((a, b, out, annotated, impl))
         ops.append({"op": "c08.lro", "files": mfiles, "file": svc_idx, "output": out, "opinfo": [a, b] if annotated else None})
     for (a, b, out, annotated, impl), mo in zip(cases, ask(ctx, ops)):
-        ctx.case(None, distinct_key=["sel", spec["pkg"], a, b, out, annotated])
+        ctx.case(None, distinct_key=["sel", spkg(spec), a, b, out, annotated])
         ctx.traces += 1
         ctx.count("t2_lro_outcome", impl.get("error") or ("typed" if impl["lro"] else "none"))
         mo = {k: v for k, v in mo.items() if k in ("lro", "error", "key")}
@@ -351,24 +432,25 @@ def run_spec(ctx, r, spec, label, transports=("grpc", "grpc_asyncio", "rest")):
 
 def _run_spec(ctx, r, spec, label, files, req, transports):
     mfiles = model_files(req)
-    svc_path = f"{spec['pkg'].replace('.', '/')}/{spec['files']['svc']['stem']}.proto"
+    svc_path = fpath(spec, "svc")
     svc_idx = [f["name"] for f in mfiles].index(svc_path)
     lros = [m for m in spec["methods"] if m["kind"] == "lro"]
     for m in lros:
         ctx.count("response_case", m["response"]["case"]); ctx.count("metadata_case", m["metadata"]["case"])
     ctx.count("file_order", ",".join(spec["order"]))
+    ctx.count("layout", spec.get("layout", "flat") + ":" + ",".join(fpkg(spec, role)[len(spec["pkg"]):] or "." for role in ROLES))
     ctx.count("service_yaml", json.dumps(spec.get("service_yaml"), sort_keys=True))
     # ---- model: generation outcome per method
     mops = []
     for m in spec["methods"]:
-        out = OP_OUT if m["kind"] in ("lro", "raw", "excluded", "present-empty") else "." + spec["pkg"] + ".X"
+        out = OP_OUT if m["kind"] in ("lro", "raw", "excluded", "present-empty") else "." + spkg(spec) + ".X"
         info = [m["response"]["text"], m["metadata"]["text"]] if "response" in m else (["", ""] if m["kind"] == "present-empty" else None)
         mops.append({"op": "c08.lro", "files": mfiles, "file": svc_idx, "output": out, "opinfo": info})
     mres = ask(ctx, mops)
     model_err = next((mo for mo in mres if "error" in mo), None)
     # ---- implementation: generation outcome
     res, err = genrun.try_generate(req)
-    ctx.case({"pkg": spec["pkg"], "order": spec["order"], "methods": [[m["name"], m["kind"], m.get("response", {}).get("text"), m.get("metadata", {}).get("text")] for m in spec["methods"]]},
+    ctx.case({"pkg": spec["pkg"], "svc_pkg": spkg(spec), "order": spec["order"], "methods": [[m["name"], m["kind"], m.get("response", {}).get("text"), m.get("metadata", {}).get("text")] for m in spec["methods"]]},
              distinct_key=["api", json.dumps(spec, sort_keys=True)])
     ctx.traces += 1
     if err:
@@ -382,7 +464,7 @@ def _run_spec(ctx, r, spec, label, files, req, transports):
     if model_err is not None:
         ctx.disagree("T3:c08.generation-outcome", f"model {model_err} vs impl generates", {"spec": spec})
     api, _ = genrun.build_api(req)
-    svc = api.services[f"{spec['pkg']}.Library"]
+    svc = api.services[f"{spkg(spec)}.Library"]
     loc = rpc.py_locations(api, svc)
     codec = rpc.Codec(files)
     import gapic.utils as gu
@@ -415,11 +497,17 @@ def _run_spec(ctx, r, spec, label, files, req, transports):
         if m["kind"] == "raw" and impl != ["message", OP]:
             ctx.fail("client-output", f"{m['name']} async={asy}: client output {impl}, expected the raw Operation", {"spec": spec})
     t2_direct(ctx, r, spec, api, svc, mfiles, svc_idx)
+    if any(fpkg(spec, role).endswith(".deeper") for role in ROLES):
+        # two-level sub-packages: the emitted tree lacks `<sub>/deeper/types` on the unchanged generator (API.subpackages,
+        # DESIGN §9-F7; a C01/C11 matter) — the library cannot be imported, so only generation + T2 are run for this layout
+        ctx.assume("T3 is not run for APIs with a two-level sub-package (`<pkg>.sub.deeper`): the emitted package does not import (DESIGN §9-F7, outside C08); generation outcome and T2 are still compared")
+        ctx.count("t3_skipped", "two-level-sub-package")
+        return
     # ---- T3
     root = genrun.materialise(res)
     try:
         ids = iter(range(1, 10 ** 6))
-        local_types = [f"{spec['pkg']}.{x}" for role in ROLES for x in spec["files"][role]["msgs"]]
+        local_types = sorted({f"{fpkg(spec, role)}.{x}" for role in ROLES for x in spec["files"][role]["msgs"]})
         plans = []
         for m in spec["methods"]:
             wm = svc.methods[m["name"]]
@@ -431,7 +519,7 @@ def _run_spec(ctx, r, spec, label, files, req, transports):
             elif m["kind"] == "raw":
                 plans.append((m, wm, [{"done": r.maybe(), "meta": None, "out": None}], f"shelves/s1/operations/raw{next(ids)}"))
         reqd = {"name": "x"}
-        rq_b64 = codec.encode_b64(f"{spec['pkg']}.ThingRequest", reqd)
+        rq_b64 = codec.encode_b64(f"{spkg(spec)}.ThingRequest", reqd)
         sessions = []
         for tr in transports:
             calls = []
@@ -444,7 +532,7 @@ def _run_spec(ctx, r, spec, label, files, req, transports):
                     c["script"] = [{"status": 200, "body": json_format.MessageToJson(x, descriptor_pool=codec.pool)} for x in msgs]
                 else:
                     enc = [base64.b64encode(x.SerializeToString()).decode() for x in msgs]
-                    c["script"] = {f"/{spec['pkg']}.Library/{m['name']}": [{"replies": [enc[0]]}],
+                    c["script"] = {f"/{spkg(spec)}.Library/{m['name']}": [{"replies": [enc[0]]}],
                                    GETOP: [{"replies": [e]} for e in enc[1:]]}
                 calls.append(c)
             if tr == "rest":
@@ -498,7 +586,7 @@ def polls_seen(tr, spec, m, res_, opname, codec):
         else:
             if rec["path"] == GETOP:
                 names.append(codec.decode("google.longrunning.GetOperationRequest", rec["requests"][0]).get("name") if rec["requests"] else None)
-            elif rec["path"] != f"/{spec['pkg']}.Library/{m['name']}":
+            elif rec["path"] != f"/{spkg(spec)}.Library/{m['name']}":
                 stray.append(rec["path"])
     return names, stray
 
@@ -612,7 +700,7 @@ def run_outcome(ctx, spec, expect, label):
     files = build_files(spec)
     req, _tmp = make_request(spec, files)
     mfiles = model_files(req)
-    svc_idx = [f["name"] for f in mfiles].index(f"{spec['pkg'].replace('.', '/')}/{spec['files']['svc']['stem']}.proto")
+    svc_idx = [f["name"] for f in mfiles].index(fpath(spec, "svc"))
     mops = []
     for m in spec["methods"]:
         info = [m["response"]["text"], m["metadata"]["text"]] if "response" in m else (["", ""] if m["kind"] == "present-empty" else None)
